@@ -14,4 +14,9 @@ META = {
   "text": "Generated command sequences with arbitrary binary/large arguments are decoded through every buffer size and read fragmentation; arguments must come back byte-identical and the decoder offset must equal the number of bytes consumed after every command. Exploration level: the decoder is a small pure state machine over bytes, so dense generated coverage of buffer/fragment boundaries is appropriate.",
   "note": "Trusts the 20-line reference encoder ref/resp. Command names are drawn from ASCII names (the tool lower-cases names; Redis command names are ASCII).",
  },
+ "C01": {
+  "technique": "property-based testing (rapid): generated streams x configurations x arrival schedules driven through the real RedisOutput against an in-process RESP double; oracle = reference stream model, sequence equality of the target log",
+  "text": "Each generated case runs the real output pipeline (parser, batcher, sender, checkpoint writer) over TCP against a recording double and compares the complete ordered target log with an independent interpretation of the stream. Exploration level: the space of streams x schedules is unbounded; arrival timing is generated but the Go scheduler is not owned.",
+  "note": "Trusts the double's request log and the reference stream model (removal rules transcribed from the documentation/filter list). A sentinel not executed within 30 s is inconclusive (exit 2), never a violation.",
+ },
 }
